@@ -89,7 +89,39 @@ def evaluate(res):
     return corr, orc
 
 
+def tsm_family(rep, tier, seed, replay=None):
+    """the target/source task-based executors (OpenMP under the mock libgomp, StarPU and Specx under their mocks) against the
+    sequential target/source executor: values and elementary interactions under every generated schedule"""
+    import tsm
+    from props import C09
+    binaries, bad = tsm.build(corefam.ALL_CONFIGS, starpu=True)
+    if not binaries:
+        return
+    usable = [c for c in corefam.ALL_CONFIGS if c in binaries]
+    cases = [tsm.parse_replay(replay)] if replay else C09.gen_cases("quick", seed + 31, usable)[:(40 if tier == "quick" else 500)]
+    n = 0
+    for res in core.run_cases(cases, binaries):
+        n += 1
+        c = res.case
+        text = "\n".join(c["lines"]) + "\n"
+        if res.crash is not None:
+            rep.violation("crash:" + corefam.crash_signature(res.crash), "# harness aborted inside this target/source case\n# " + res.crash.replace("\n", "\n# ") + "\n" + text, True,
+                          "the real library aborted on target/source case %s: %s" % (c["name"], corefam.crash_signature(res.crash)))
+            continue
+        if res.cpp is None or res.lean is None:
+            continue
+        for sig, msg in C09.evaluate(res)[1]:
+            if sig in ("C09:omp-values", "C09:omp-elems", "C09:X"):
+                rep.violation("C03:tsm-" + sig.split(":")[1], "# %s\n%s" % (msg, text), True, "target/source case %s: %s" % (c["name"], msg))
+    rep.cov["target_source_schedule_cases"] = n
+
+
 def run(rep, tier, seed, replay, proof_ok, proof_msg):
+    if replay and any(ln.startswith("partsS ") for ln in open(replay)):
+        tsm_family(rep, tier, seed, replay)
+        return
+    if not replay:
+        tsm_family(rep, tier, seed)
     corefam.standard_run(rep, tier, seed, replay, proof_ok, proof_msg, gen_cases, evaluate, omp=True, starpu=True,
                          corr_name="OpenMP executor (mock runtime, all tasks deferred) vs sequential executor vs Lean model")
     rep.assumptions += ["a conforming runtime = one that starts a task only after every earlier task with a conflicting declared dependence finished (harness/mock_gomp.cpp)",
